@@ -108,12 +108,33 @@ DIM = {
 
 
 INPUTS = {}   # input symbols of the contracts (for the numeric falsifier): name -> 'pos' | 'real' | 'nonneg'
+DIMS_POLICY = None   # optional: name -> dims for arguments created without explicit dims (operand-shape variants of a contract run)
+ARG_LOG = []         # names of the arguments created (in order), for enumerating shape variants
+
+
+class dims_policy:
+    """with kit.dims_policy(lambda name: ('row',)): ...  -- operands created by arg() without explicit dims get these dims"""
+
+    def __init__(self, fn):
+        self.fn = fn
+
+    def __enter__(self):
+        global DIMS_POLICY
+        self.saved, DIMS_POLICY = DIMS_POLICY, self.fn
+
+    def __exit__(self, *exc):
+        global DIMS_POLICY
+        DIMS_POLICY = self.saved
 
 
 def arg(name, dim, dtype=F64, unit=None, dims=(), origin='argument', sym_scale=True, kind='pos'):
     """Symbolic scalar/element-generic argument `name` with a unit of dimension `dim` and symbolic
     positive scale k_<name> (or the fixed `unit`)."""
     like = DIM[dim] if isinstance(dim, str) else dim
+    if name not in ARG_LOG:
+        ARG_LOG.append(name)
+    if dims == () and DIMS_POLICY is not None and origin == 'argument':
+        dims = tuple(DIMS_POLICY(name))
     if unit is None:
         unit = symbolic_unit(f'k_{name}', like) if sym_scale else like
     else:
